@@ -97,6 +97,18 @@ TEXT['C10'] = (
     'use_references=False equals the species without references. The list held by the object mirrors an independent list model.',
     'DESIGN.md 3.10')
 
+TEXT['C08'] = (
+    'Claimed for its two aliasing clauses (per-species keyword routing over shared species; caller condition dictionaries '
+    'left unmodified) with the algebraic clauses as step invariants. Seeded search over histories in which 1-3 clients build '
+    '3-9 species (StatMech, Nasa, Shomate) shared by 1-8 Reaction / ChemkinReaction / SurfaceReaction objects (1-4 species a '
+    'side, coefficients 0.25-4, 0-2 transition-state species, species on both sides, from_string), keep 1-3 condition '
+    'dictionaries with nested <name>_kwargs blocks that are re-used and edited between calls, edit species parameters, and '
+    'evaluate state / delta / activation / Keq getters with every (rev, act). Oracle: deep-copy snapshot equality of the '
+    'dictionary after every call; an independent router and an independent stoichiometric sum over the species\' own getters '
+    'give every state value, hence Hess, reversal antisymmetry, forward - reverse activation = change, partition-function '
+    'ratios, K = exp(-dG/RT), Kf x Kr = 1; after every step every reaction is re-checked at a fixed condition (staleness).',
+    'DESIGN.md 3.8')
+
 TECHNIQUE = 'deterministic simulation with fault injection (seeded schedule/history search, reference-model oracle, ddmin replay)'
 
 
